@@ -6,17 +6,22 @@ from .. import astdump, core, qeval, qgen, qpool, surface
 LEVEL = "proof"
 READY = True
 CLAIM = {
-    "text": "Lean theorems over ALL compiled expressions: the model of the serializer (JSONPath.__str__, selectors, BooleanExpression._canonical_string, Infix/Prefix "
-            "expression printing, literals, canonical string quoting) prints a text that the model reader of the canonical form reads back to an equivalent AST (same up to "
-            "the shorthand flag), hence evaluates identically on every document, and printing is a fixed point; string contents survive quoting/escaping for every Unicode "
-            "string. The serializer model is tied to the implementation by comparing printed texts, and the recompile/fixed-point/equal-results clauses are evaluated on the "
-            "implementation for every generated accepted query (standard queries in every spelling, extension syntax, compound queries, fuzzed accepted strings).",
-    "note": "Trusted: Lean kernel; models JP.Printer/JP.Reader tied to filter.py/selectors.py/path.py and to the real parser by correspondence; float repr/float() round trip of Python.",
-    "technique": "Lean 4 print/read round-trip proof on the serializer model + differential correspondence + recompilation checks on the implementation",
+    "text": "Lean theorems over ALL compiled queries: (token level) parsing the tokens of the serializer's output with the model of the Pratt parser (precedence table "
+            "regenerated from parse.py) gives the query back up to printing an omitted slice step as 1 (str_recompiles), the recompiled query evaluates identically on "
+            "every document (recompiled_equivalent), printing is a fixed point (str_fixed_point), compound queries round-trip operand by operand; (character level) the "
+            "model of the lexer - every rule of lex.py as a scanner, rule texts regenerated from the source (lex_source_ok) - turns the serializer's TEXT into exactly "
+            "those tokens (printed_text_lexes, printed_compound_lexes), canonical_string survives lexing and literal decoding for every Unicode string "
+            "(canonical_string_roundtrip), hence compiling the printed text gives the query back (text_roundtrip). Lexer, literal decoding, parser and serializer models "
+            "are tied to the implementation by comparing raw tokens, cooked tokens, printed texts and parsed ASTs on every generated text, and the "
+            "recompile / fixed-point / equal-results clauses are evaluated on the implementation itself.",
+    "note": "Trusted: Lean kernel; models JP.Lex / JP.Surface tied to lex.py, parse.py, filter.py, selectors.py, path.py, serialize.py by translated tables and by correspondence; "
+            "Python's \\w on non-ASCII characters is a parameter of the theorems; float repr/float() round trip of Python for floats that are not small multiples of 1/8.",
+    "technique": "Lean 4 proofs: print/lex/parse round trip on character-level lexer + Pratt parser + serializer models; translated rule/precedence tables; differential correspondence",
 }
 RULE = ("query pool (standard, extension, compound) + generated standard queries in random spellings + mutated accepted strings; for each: str, recompile, fixed point, AST "
         "equality modulo shorthand, equal results on probe documents; non-trivial = the query has at least one segment")
-TRUSTED = ["Lean 4.33 kernel; standard axioms only", "serializer model tied to the implementation by this differential run"]
+TRUSTED = ["Lean 4.33 kernel; standard axioms only", "translator harness/tables.py (lexer rule texts, precedence tables)",
+           "lexer / parser / serializer models tied to the implementation by this differential run", "Python's \\w for non-ASCII characters (parameter uword)"]
 ASSUMPTIONS = ["float literals are multiples of 1/8 in the model correspondence (others are checked on the implementation only)"]
 
 EXTRA = [
@@ -55,6 +60,18 @@ def grouping_grid():
         out.append(f"$[?count(@.*) {o1} length(@.a)]")
         out.append(f"$[?match(@.s, 'a') {o1} (@.a {o1} @.b)]")
     return out
+
+
+SOUP = ["$", "@", ".", "..", "[", "]", "*", "?", "'a'", '"b"', "1", "-1", "1.5", "1e2", "1e-2", ":", " ", "==", "!=", "<", "<=", "<>", "=~", "/a/i", "!", "&&", "||",
+        "and", "or", "not", "in", "contains", "true", "True", "null", "None", "nil", "undefined", "missing", "(", ")", ",", "a", "_x", "~", "#", "^", "_", "|", "&", "length(",
+        "x(", "not(", "and(", "in(", "\u00e9", "\U0001f600", "\\", "'", '"', "/", "-", "e", "\t", "\n", "\xa0", "=", "0", "01", "1:2", "::", "a-b", "and1", "inx", "1e", "1e+",
+        "1.", ".5", "1.e3", "12a", "1_0", "\u0663", "'\\''", '"\\""', "'\\u00e9'", "\u2003", "..a", ".._", "..and"]
+
+
+def lexer_soup(ctx):
+    """random concatenations of lexer-relevant fragments (mostly not queries): stress for the rule order"""
+    n = 3000 if ctx.tier == "quick" else 60000
+    return ["".join(ctx.rng.choice(SOUP) for _ in range(ctx.rng.randint(1, 6))) for _ in range(n)]
 
 
 def gen(ctx):
@@ -99,6 +116,16 @@ def evaluate(ctx, cases):
     import jsonpath
 
     env = jsonpath.DEFAULT_ENV
+    # --- character-level correspondence with the Lean lexer / printer model (JP.Lex)
+    from .. import lexcorr
+    texts = [c["text"] for c in cases] + lexer_soup(ctx)
+    lexcorr.run_texts(ctx, env, texts)
+    compiled = []
+    for c in cases:
+        o = qeval.compile_outcome(c["text"])
+        if "ok" in o:
+            compiled.append((c["text"], o["ok"]))
+    lexcorr.run_queries(ctx, env, compiled)
     # --- token-level correspondence with the Lean surface model (printer tokens, parser, round trip)
     reqs, meta = [], []
     for c in cases:
